@@ -800,6 +800,104 @@ pub fn exec(s: &J) -> J {
                 }),
             );
         }
+        "chain" => {
+            // a chain of calls: the crate's own output bytes are threaded from call to call and
+            // every result is appended to one shared buffer
+            let res = guard(|| {
+                let mut regs: Vec<Vec<u8>> = s["start"].as_array().unwrap().iter().map(|t| encode_value(&tree_to_value(t))).collect();
+                let start_j: Vec<J> = regs.iter().map(|b| bytes_to_j(b)).collect();
+                let mut buf: Vec<u8> = Vec::new();
+                let mut outs: Vec<J> = Vec::new();
+                for st in s["steps"].as_array().unwrap() {
+                    let f = st["f"].as_str().unwrap();
+                    let src: Vec<usize> = st["src"].as_array().unwrap().iter().map(|x| x.as_u64().unwrap() as usize - 1).collect();
+                    let dst = st["dst"].as_u64().unwrap() as usize - 1;
+                    let a = &st["a"];
+                    let x = regs[src[0]].clone();
+                    let y = if src.len() > 1 { regs[src[1]].clone() } else { Vec::new() };
+                    let before = buf.len();
+                    let out = guard(|| {
+                        let mut b = std::mem::take(&mut buf);
+                        // Ok(Some(())) appended; Ok(None) nothing; Err
+                        let r: Result<Option<()>, jsonb::Error> = (|| {
+                            match f {
+                                "concat" => jsonb::concat(&x, &y, &mut b).map(Some),
+                                "delete_by_name" => jsonb::delete_by_name(&x, &s_of(&a["n"]), &mut b).map(Some),
+                                "delete_by_index" => jsonb::delete_by_index(&x, a["i"].as_i64().unwrap() as i32, &mut b).map(Some),
+                                "delete_by_keypath" => { let kp = kp_from_j(&a["kp"]); jsonb::delete_by_keypath(&x, kp.iter(), &mut b).map(Some) }
+                                "array_insert" => jsonb::array_insert(&x, a["pos"].as_i64().unwrap() as i32, &y, &mut b).map(Some),
+                                "object_insert" => jsonb::object_insert(&x, &s_of(&a["n"]), &y, a["upd"].as_i64().unwrap() != 0, &mut b).map(Some),
+                                "object_delete" | "object_pick" => {
+                                    let keys: Vec<String> = a["keys"].as_array().unwrap().iter().map(s_of).collect();
+                                    let set: BTreeSet<&str> = keys.iter().map(|s| s.as_str()).collect();
+                                    if f == "object_delete" { jsonb::object_delete(&x, &set, &mut b).map(Some) } else { jsonb::object_pick(&x, &set, &mut b).map(Some) }
+                                }
+                                "strip_nulls" => jsonb::strip_nulls(&x, &mut b).map(Some),
+                                "build_array" => jsonb::build_array([x.as_slice(), y.as_slice()], &mut b).map(Some),
+                                "build_object" => {
+                                    let keys: Vec<String> = a["keys"].as_array().unwrap().iter().map(s_of).collect();
+                                    jsonb::build_object([(keys[0].as_str(), x.as_slice()), (keys[1].as_str(), y.as_slice())], &mut b).map(Some)
+                                }
+                                "array_distinct" => jsonb::array_distinct(&x, &mut b).map(Some),
+                                "array_intersection" => jsonb::array_intersection(&x, &y, &mut b).map(Some),
+                                "array_except" => jsonb::array_except(&x, &y, &mut b).map(Some),
+                                "get_by_index" => Ok(jsonb::get_by_index(&x, a["i"].as_u64().unwrap() as usize).map(|v| b.extend_from_slice(&v))),
+                                "get_by_name" => Ok(jsonb::get_by_name(&x, &s_of(&a["n"]), a["ic"].as_i64().unwrap() != 0).map(|v| b.extend_from_slice(&v))),
+                                "get_by_keypath" => { let kp = kp_from_j(&a["kp"]); Ok(jsonb::get_by_keypath(&x, kp.iter()).map(|v| b.extend_from_slice(&v))) }
+                                "object_keys" => Ok(jsonb::object_keys(&x).map(|v| b.extend_from_slice(&v))),
+                                "select" => {
+                                    let jp = JsonPath { paths: paths_from_j(&a["path"]) };
+                                    let mode = match a["mode"].as_str().unwrap() { "first" => Mode::First, "array" => Mode::Array, _ => Mode::Mixed };
+                                    let sel = Selector::new(jp, mode);
+                                    let mut offs = Vec::new();
+                                    let l0 = b.len();
+                                    sel.select(&x, &mut b, &mut offs).map(|()| if b.len() > l0 { Some(()) } else { None })
+                                }
+                                other => panic!("unknown chain step {other}"),
+                            }
+                        })();
+                        buf = b;
+                        match r {
+                            Ok(Some(())) => json!({"t":"bytes"}),
+                            Ok(None) => json!({"t":"none"}),
+                            Err(e) => r_err(&e),
+                        }
+                    });
+                    let mut out = out;
+                    if out["t"] == "bytes" {
+                        let appended = buf[before..].to_vec();
+                        out["v"] = bytes_to_j(&appended);
+                        regs[dst] = appended;
+                    }
+                    out["buf"] = bytes_to_j(&buf);
+                    outs.push(out);
+                }
+                json!({"t":"chain","start":start_j,"outs":outs})
+            });
+            ev.insert("res".into(), res);
+        }
+        "deep" => {
+            // one probe in a child process; its death by a signal is the recorded outcome
+            let exe = std::env::current_exe().expect("exe");
+            let out = std::process::Command::new(exe)
+                .args(["deep", a["routine"].as_str().unwrap(), a["shape"].as_str().unwrap(), &a["depth"].as_u64().unwrap().to_string()])
+                .output();
+            let res = match out {
+                Ok(o) => {
+                    let s = String::from_utf8_lossy(&o.stdout).trim().to_string();
+                    if o.status.success() && (s == "ok" || s == "err") {
+                        json!({"t": s})
+                    } else if s == "panic" {
+                        json!({"t":"panic","m":"probe panicked"})
+                    } else {
+                        use std::os::unix::process::ExitStatusExt;
+                        json!({"t":"crash","signal": o.status.signal().unwrap_or(0), "code": o.status.code().unwrap_or(-1)})
+                    }
+                }
+                Err(e) => json!({"t":"harness-error","m":e.to_string()}),
+            };
+            ev.insert("res".into(), res);
+        }
         other => {
             ev.insert("res".into(), json!({"t":"unknown-op","m":other}));
         }
